@@ -201,6 +201,12 @@ pub fn run_here(scn: &dyn Scenario, case: &Value, replay: Vec<u32>, want_decisio
             Some((c, m))
         }
     };
+    // an abort requested from inside the simulation (step budget, starvation of the runtime, ...)
+    // overrides whatever the unwinding turned it into
+    let class = match sim::try_with(|s| s.abort.clone()).flatten() {
+        Some(a) => Some(a),
+        None => class,
+    };
     let mut v = result_json(class, false, want_decisions, sim_ms.min(WATCHDOG_SECS * 1000));
     if v["blocking"] == json!(true) {
         v["harness_error"] = json!("spawn_blocking was used: work ran outside the simulator");
